@@ -24,7 +24,9 @@ def main():
     chk = core.Check(a.prop, a.tier, seed)
     try:
         mod = importlib.import_module(f"contracts.{a.prop}")
-        chk.level_category = getattr(mod, "META", {}).get("category", "proof")
+        meta = getattr(mod, "META", {})
+        chk.level_category = meta.get("category", "proof")
+        chk.explanation = (meta.get("level_text", "") + "  NOTE: " + meta.get("level_note", "")).strip()
         mod.run(chk)
     except core.Undecided as e:
         # raised outside an obligation thunk (e.g. while exploring for a cover): the contract could not be anchored in
